@@ -1538,8 +1538,126 @@ func TestGocvReplay(t *testing.T) {
 	}
 }
 `}
+	replayers["scenario:C11-recover"] = &Replayer{PkgDir: "kmipclient", Oracle: "a connection that dies with each kind of fault (end of stream, reset-style read error, write error, undecodable response) fails the pending call with an error and the NEXT call dials a fresh connection and succeeds on a reachable server; a closed client keeps failing without dialling",
+		Template: `package kmipclient
+
+import (
+	"context"
+	"errors"
+	"net"
+	"sync"
+	"testing"
+	"time"
+
+	"github.com/ovh/kmip-go"
+	"github.com/ovh/kmip-go/payloads"
+	"github.com/ovh/kmip-go/ttlv"
+)
+
+// gocvFaulty wraps the client end of a pipe; after arm() its Read or Write fails with a reset-style error.
+type gocvFaulty struct {
+	net.Conn
+	mu       sync.Mutex
+	readErr  error
+	writeErr error
+}
+
+func (f *gocvFaulty) Read(p []byte) (int, error) {
+	f.mu.Lock()
+	e := f.readErr
+	f.mu.Unlock()
+	if e != nil {
+		return 0, e
+	}
+	return f.Conn.Read(p)
+}
+
+func (f *gocvFaulty) Write(p []byte) (int, error) {
+	f.mu.Lock()
+	e := f.writeErr
+	f.mu.Unlock()
+	if e != nil {
+		return 0, e
+	}
+	return f.Conn.Write(p)
+}
+
+func TestGocvReplay(t *testing.T) {
+	okResp := kmip.ResponseMessage{Header: kmip.ResponseHeader{ProtocolVersion: kmip.V1_4, BatchCount: 1},
+		BatchItem: []kmip.ResponseBatchItem{ {Operation: kmip.OperationActivate, ResultStatus: kmip.ResultStatusSuccess, ResponsePayload: &payloads.ActivateResponsePayload{UniqueIdentifier: "x"}}}}
+	okBytes := ttlv.MarshalTTLV(&okResp)
+	reset := errors.New("read: connection reset by peer")
+	for _, fault := range []string{"eof", "read-reset", "write-reset", "garbage"} {
+		dials := 0
+		var conns []*gocvFaulty
+		answer := map[int]string{} // per connection: what the server does with the 2nd request
+		c := &Client{lock: new(sync.Mutex), dialer: func(ctx context.Context) (net.Conn, error) {
+			dials++
+			n := dials
+			a, b := net.Pipe()
+			f := &gocvFaulty{Conn: a}
+			conns = append(conns, f)
+			go func() {
+				s := ttlv.NewStream(b, 1<<20)
+				for i := 0; ; i++ {
+					var req kmip.RequestMessage
+					if err := s.Recv(&req); err != nil {
+						b.Close()
+						return
+					}
+					if n == 1 && i == 1 {
+						switch answer[1] {
+						case "eof":
+							b.Close()
+							return
+						case "read-reset":
+							f.mu.Lock()
+							f.readErr = reset
+							f.mu.Unlock()
+							// wake the reader blocked in the pipe
+							b.Write(okBytes[:8])
+							continue
+						case "garbage":
+							b.Write([]byte{0x42, 0x00, 0x7B, 0x0F, 0, 0, 0, 8, 1, 2, 3, 4, 5, 6, 7, 8})
+							continue
+						}
+					}
+					b.Write(okBytes)
+				}
+			}()
+			return f, nil
+		}}
+		answer[1] = fault
+		call := func() error {
+			ctx, cancel := context.WithTimeout(context.Background(), 5*time.Second)
+			defer cancel()
+			msg := kmip.NewRequestMessage(kmip.V1_4, &payloads.ActivateRequestPayload{UniqueIdentifier: "x"})
+			_, err := c.Roundtrip(ctx, &msg)
+			return err
+		}
+		if err := call(); err != nil {
+			t.Fatalf("setup (%s): first call failed: %v", fault, err)
+		}
+		if fault == "write-reset" {
+			conns[0].mu.Lock()
+			conns[0].writeErr = errors.New("write: connection reset by peer")
+			conns[0].mu.Unlock()
+		}
+		err2 := call() // the call that meets the fault: a response or an error, both fine
+		err3 := call() // at the latest this one runs on a fresh connection
+		if err3 != nil {
+			t.Fatalf("GOCV-REPRODUCED: {{.Obligation}}: after a %s fault on the connection (call 2: %v) the next call does not recover although the server is reachable: %v (dials so far: %d)", fault, err2, err3, dials)
+		}
+		d := dials
+		_ = c.Close()
+		if err := call(); err == nil || dials != d {
+			t.Fatalf("GOCV-REPRODUCED: {{.Obligation}}: a call on a closed client: err=%v, dials %d -> %d", err, d, dials)
+		}
+	}
+}
+`}
 	replayers["(*kmipclient.Client).Close"] = replayers["scenario:C11"]
-	replayers["(*kmipclient.Client).doRountrip"] = replayers["scenario:C11"]
+	replayers["(*kmipclient.Client).doRountrip"] = replayers["scenario:C11-recover"]
 	replayers["(*kmipclient.Client).reconnect"] = replayers["scenario:C11"]
 	// registry bijection at run time (C17): everything registered is written by name and read back as the same number
 	replayers["scenario:C17"] = &Replayer{PkgDir: ".", Oracle: "for every registered tag, enumeration value and bit-mask flag: the name written by the XML form is read back as the same number (exhaustive over the run-time registry)",
